@@ -174,8 +174,8 @@ def cellOf (num den : Int) : Nat :=
   let c := (v / (1000 * den)).toNat
   min c 3
 
-/-- Check one glyph. Returns failures. `complex` = sub-boxes expected for this glyph. -/
-def checkGlyph (g : Nat) (pts : List Pt) (ob : Octabox) : List String := Id.run do
+/-- Check one glyph. Returns failures. `complex` = the program asks for sub-boxes for this glyph (collision.complexFit). -/
+def checkGlyph (g : Nat) (pts : List Pt) (ob : Octabox) (complex : Bool := false) : List String := Id.run do
   if pts.isEmpty then
     if ob.bitmap != 0 ∨ ob.diag.toList != [0, 0, 0, 0] then
       return [s!"glyph {g}: no outline but octabox data bitmap={ob.bitmap} diag={ob.diag.toList}"]
@@ -207,7 +207,9 @@ def checkGlyph (g : Nat) (pts : List Pt) (ob : Octabox) : List String := Id.run 
       out := out ++ [s!"glyph {g}: point ({p.x},{p.y}) outside the whole-glyph x+y bounds {ob.diag.getD 0 0}..{ob.diag.getD 1 0}"]
     if !(encl (ob.diag.getD 2 0) (ob.diag.getD 3 0) ndiff S) then
       out := out ++ [s!"glyph {g}: point ({p.x},{p.y}) outside the whole-glyph x-y bounds {ob.diag.getD 2 0}..{ob.diag.getD 3 0}"]
-    if ob.bitmap != 0 then
+    -- (complex: the program sets collision.complexFit for this glyph, so its occupied cells must cover every point even
+    -- if the bitmap says there is none)
+    if ob.bitmap != 0 ∨ complex then
       let cx := cellOf nx W
       let cy := cellOf ny H
       let bit := cy * 4 + cx
